@@ -356,3 +356,56 @@ def collapsed_side(ctx):
     faces = [(frozenset(v.index for v in f_.side.vertices), f_.label) for f_ in mesh.face_list.faces]
     for side in ("top", "bottom", "left", "right", collapsed):
         ctx.prove("projected-side-reaches-the-mesh", any(k == frozenset(key(side)) for k, _ in faces), side=side, faces=[sorted(k) for k, _ in faces])
+
+
+# ------------------------------------------------------------------------------ addressing reaches the assembled mesh (and survives re-assembly)
+@proof("C10", "assembled-mesh/sides-patches-and-projections-reach-the-mesh", level="S", samples=1,
+       cases=[(h, sk) for h in ("assemble", "assemble-clear-assemble", "assemble-backport", "modify-delete-clear-assemble") for sk in (False, True)],
+       functions=["classy_blocks.mesh:Mesh.assemble", "classy_blocks.mesh:Mesh.clear", "classy_blocks.lists.face_list:FaceList.add", "classy_blocks.lists.face_list:FaceList.clear",
+                  "classy_blocks.lists.patch_list:PatchList.add", "classy_blocks.lists.patch_list:PatchList.clear", OP + "set_patch", OP + "project_side"],
+       note="two boxes, every side of the first one given its own patch and its own projection: in the assembled mesh (edges skipped or not; after "
+            "clear / backport; with a patch modified through the mesh and the second box deleted in between) each patch and each projected face "
+            "sits on the four vertices of that side's corners, once")
+def assembled_addressing(ctx):
+    import classy_blocks as cb
+    from classy_blocks.mesh import Mesh
+
+    hist, skip = ctx.case
+    a, b = cb.Box([0.0, 0.0, 0.0], [1.0, 1.0, 1.0]), cb.Box([1.0, 0.0, 0.0], [2.0, 1.0, 1.0])
+    for s_ in hexa.SIDES:
+        a.set_patch(s_, "p_" + s_)
+        a.project_side(s_, "g_" + s_)
+    b.set_patch("top", "lid")
+    b.project_side("top", "g_lid")
+    mesh = Mesh()
+    mesh.add(a)
+    mesh.add(b)
+    kw = {"skip_edges": True} if skip else {}
+    mesh.assemble(**kw)
+    live_b = True
+    if hist == "assemble-clear-assemble":
+        mesh.clear()
+        mesh.assemble(**kw)
+    elif hist == "assemble-backport":
+        mesh.backport()
+    elif hist == "modify-delete-clear-assemble":
+        mesh.modify_patch("p_right", "wall")
+        mesh.modify_patch("lid", "wall")
+        mesh.delete(b)
+        live_b = False
+        mesh.clear()
+        mesh.assemble(**kw)
+    blk = mesh.blocks[0]
+    key = lambda block, side: frozenset(block.vertices[c].index for c in hexa.FACE_SPEC[side])
+    want_patches = {"p_" + s_: [key(blk, s_)] for s_ in hexa.SIDES}
+    want_faces = {(key(blk, s_), "g_" + s_) for s_ in hexa.SIDES}
+    if live_b:
+        want_patches["lid"] = [key(mesh.blocks[1], "top")]
+        want_faces.add((key(mesh.blocks[1], "top"), "g_lid"))
+    got_patches = {name: [frozenset(v.index for v in side.vertices) for side in p.sides] for name, p in mesh.patch_list.patches.items() if p.sides}
+    ctx.prove("each-patch-holds-exactly-its-side", got_patches == want_patches, got={k: [sorted(x) for x in v] for k, v in got_patches.items()})
+    got_faces = [(frozenset(v.index for v in f_.side.vertices), f_.label if isinstance(f_.label, str) else tuple(f_.label)) for f_ in mesh.face_list.faces]
+    ctx.prove("each-projected-side-is-listed-once-on-its-own-vertices", sorted((sorted(k), str(l)) for k, l in got_faces) == sorted((sorted(k), str(l)) for k, l in want_faces),
+              got=[(sorted(k), str(l)) for k, l in got_faces])
+    ctx.prove("side-vertices-are-vertices-of-the-mesh", all(any(v is w for w in mesh.vertices) for p in mesh.patch_list.patches.values() for side in p.sides for v in side.vertices)
+              and all(any(v is w for w in mesh.vertices) for f_ in mesh.face_list.faces for v in f_.side.vertices))
